@@ -86,6 +86,10 @@ class _InflightOperations:
         handle, task = self._processes[pid]
         del self._processes[pid]
         handle.returncode = returncode
+        if handle.process is not None:
+            # The child has been reaped by `SigchldHelper`; make sure `Popen`
+            # knows so that it never tries to `waitpid()` on this pid itself.
+            handle.process.returncode = returncode
         return handle, task
 
     def terminate_processes(self) -> None:
